@@ -196,6 +196,19 @@ def check_batch(spec, ctx):
             v.detail["replay_spec"] = {"forms": [fs], "mode": "single", "string": False}
             raise
         nontrivial = nontrivial or nt
+        # the same form object-wise through the high-level entry point assemble(VForm, kvs, args, boundary=...): this goes
+        # through instantiate_assembler (argument selection, boundary specification) and hits the in-process cache
+        if spec.get("via_assemble", True):
+            kvs_arg = built["kvs"][0] if len(built["kvs"]) == 1 else tuple(built["kvs"])
+            kw = {"boundary": tuple(fs["bd"])} if fs["kind"] == "boundary" else {}
+            got2 = ctx.sut(assemble.assemble, gf.build_vform(fs), kvs_arg, args=dict(built["args"]),
+                           what="assemble(VForm, kvs, args)", **kw)
+            try:
+                compare(ctx, fs, got2, A, sabs, oracle="assemble_entry_point")
+            except Violation as v:
+                v.detail["replay_spec"] = {"forms": [fs], "mode": "single", "string": False}
+                raise
+            ctx.flag("via_assemble")
         ctx.count("forms_compiled_and_compared")
         if nt:
             ctx.count("forms_nontrivial")
